@@ -261,8 +261,44 @@ def t_lex_laws(ex):
     ex.oblige(f"{P}.ensures.cmp_transitive", SBool(z3.Implies(z3.And(lex(ab) <= 0, lex(bc) <= 0), lex(ac) <= 0)), kind="lemma")
 
 
+def t_revision(ex):
+    """Revision: == compares the integer value (C01.Revision); equal revisions must hash alike"""
+    import inspect
+    from pkgcore.ebuild.cpv import Revision
+    P = "C02.Revision"
+    it = Interp(ex, label=P)
+    it.hash_model = hash_model
+    mk = lambda t: SObj(Revision, {"data": KStr.fresh("data" + t), "_revint": KInt.fresh("revint" + t)})
+    a, b = mk("1"), mk("2")
+    # type invariant from Revision.__init__: _revint = int(data) (0 for the empty text): equal text => equal integer
+    ex.assume(Implies(a.fields["data"] == b.fields["data"], a.fields["_revint"] == b.fields["_revint"]))
+    e = call(it, it.target(F_CPV, "Revision.__eq__"), a, b)
+    h = inspect.getattr_static(Revision, "__hash__")
+    if getattr(h, "__module__", "") != "pkgcore.ebuild.cpv":
+        # inherited collections.UserString.__hash__: hash(self.data) (stdlib, assumed)
+        ha, hb = hash_model(it, a.fields["data"]), hash_model(it, b.fields["data"])
+        src = "UserString.__hash__ (hash of the text)"
+    else:
+        ra, rb = call(it, it.target(F_CPV, "Revision.__hash__"), a), call(it, it.target(F_CPV, "Revision.__hash__"), b)
+        ex.oblige(f"{P}.__hash__.raises.nothing", not (ra.raised or rb.raised), kind="exceptional-postcondition")
+        if ra.raised or rb.raised:
+            return
+        ha, hb = ra.value, rb.value
+    ex.inputs.update({"data1": a.fields["data"], "data2": b.fields["data"], "revint1": a.fields["_revint"], "revint2": b.fields["_revint"]})
+    if not e.raised:
+        ex.oblige(f"{P}.ensures.equal_revisions_hash_alike", Implies(as_bool(e.value), as_bool(models.eq(it, ha, hb))))
+
+
+def replay_revision(model):
+    from pkgcore.ebuild.cpv import Revision
+    bad = [f"Revision({x!r}) == Revision({y!r}) but hashes differ" for x, y in (("01", "1"), ("0", ""), ("00", "0"))
+           if Revision(x) == Revision(y) and hash(Revision(x)) != hash(Revision(y))]
+    return bool(bad), "; ".join(bad) or "equal revisions hash alike"
+
+
 def tasks():
     return [
+        Task("C02.Revision", t_revision, [(F_CPV, "Revision.__eq__"), (F_CPV, "Revision.__hash__")]),
         Task("C02.CPV", t_cpv, [(F_CPV, f"CPV.{n}") for n in ("__eq__", "__ne__", "__lt__", "__le__", "__gt__", "__ge__", "__hash__")]),
         Task("C02.atom.cmp_eq_hash", t_atom, [(F_ATOM, "atom.__cmp__"), (F_ATOM, "atom.__init__")], max_paths=200000),
         Task("C02.atom.cmp_is_lexicographic", t_atom_lex, [(F_ATOM, "atom.__cmp__")]),
@@ -301,4 +337,4 @@ def replay_atom(model):
     return bool(bad), "; ".join(bad) or "probe pairs differing in one attribute are consistent"
 
 
-REPLAY = {"C02.CPV": replay_cpv, "C02.atom": replay_atom}
+REPLAY = {"C02.CPV": replay_cpv, "C02.atom": replay_atom, "C02.Revision": replay_revision}
